@@ -36,6 +36,10 @@ CONSTANTS
     WantsLevel,      \* writers that ask to be told the severity before each Write (LevelSettable)
     FailSets,        \* sequence of fault assignments explored by LogF: sets of <<phase, writer, occurrence>>
     LogSevs,         \* severities explored by LogF
+    Tokens,          \* argument token kinds explored by LogA (C02), see Args below
+    MaxArgs,         \* longest argument list explored by LogA
+    EPs,             \* entry-point classes explored by LogA
+    MsgClasses,      \* message classes explored by LogA
     MaxList,         \* bound on the length of attribute / writer / context-key lists in the exhaustive model
     Acts             \* enabled action families (subset of AllActs)
 
@@ -44,7 +48,7 @@ VARIABLE st
 STDOUT == -1
 STDERR == -2
 
-AllActs == {"Set", "With", "New", "NewDetached", "PkgSetLevel", "SetDefault", "LogF"}
+AllActs == {"Set", "With", "New", "NewDetached", "PkgSetLevel", "SetDefault", "LogF", "LogA"}
 
 -----------------------------------------------------------------------------
 (* Per-logger configuration *)
@@ -156,6 +160,7 @@ Guard(s, e) ==
       [] e.op = "NewDetached" -> TRUE
       [] e.op = "PkgSetLevel" -> TRUE
       [] e.op = "SetDefault" -> e.l \in Live(s)
+      [] e.op = "LogA" -> e.l \in Live(s)          \* a call through entry point e.k, severity e.a, message class e.mc, arguments e.args
       [] e.op = "LogF" -> e.l \in Live(s)          \* a record of severity e.a under fault assignment FailSets[e.b]
       [] OTHER -> FALSE
 
@@ -183,6 +188,7 @@ Step(s, e) ==
       [] e.op = "PkgSetLevel" ->
            {[s EXCEPT !.deflvl = e.a, !.cfg[s.deflog].level = e.a, !.dbg = s.dbg \/ e.a = Debug]}
       [] e.op = "SetDefault" -> {[s EXCEPT !.deflog = e.l]}
+      [] e.op = "LogA" -> {s}
       [] e.op = "LogF" -> {s}                        \* logging never changes the configuration; no fault state exists
 
 \* the logger a call returns (0: nothing / not a logger)
@@ -235,6 +241,22 @@ Deliver(s, l, r, fails) ==
              a2 == IF WantsDiag(s, l, r, a1) THEN Attempts(Dest(s, l, Warn), 2, fails) ELSE <<>>
          IN a1 \o a2
 
+(* C02: whatever the arguments, an admitted call is one whole Write (payload ending in a newline)
+   per selected destination, a call that is not admitted writes nothing, and a blank
+   Print/Println is exactly one newline byte.  Package-level entry points act on the default
+   logger.  The expected outcome does not depend on the argument list - that IS the property;
+   TLC enumerates the lists (ArgLists) so that every one of them is executed.                     *)
+ArgLists == UNION {[1..n -> Tokens] : n \in 0..MaxArgs}
+BlankClasses == {"empty", "blank"}
+PkgEPs == {"pkg", "pkg.ctx", "pkg.Println"}
+Target(s, e) == IF e.k \in PkgEPs THEN s.deflog ELSE e.l
+ExpectA(s, e) ==
+    LET t == Target(s, e)
+        d == Dest(s, t, e.a)
+    IN IF Emits(s, t, e.a)
+       THEN [j \in 1..Len(d) |-> [w |-> d[j], nl |-> TRUE, one |-> (e.a = Always /\ e.mc \in BlankClasses)]]
+       ELSE <<>>
+
 EachOf(s, l) ==   \* Each: every logger of the subtree exactly once, with its depth below l
     LET sub == Subtree(s, l)
         ids == SetToSortSeq(sub, <)
@@ -274,6 +296,12 @@ NewDetached(nm, oi) == "NewDetached" \in Acts /\ st.n < MaxLoggers /\ Do("NewDet
 PkgSetLevel(v) == "PkgSetLevel" \in Acts /\ "Level" \in DOMAIN SetterArgs /\ <<v, 0>> \in SetterArgs["Level"] /\ Do("PkgSetLevel", 0, "", v, 0)
 SetDefault(l) == "SetDefault" \in Acts /\ Do("SetDefault", l, "", 0, 0)
 LogF(l, r, fi) == "LogF" \in Acts /\ Do("LogF", l, "", r, fi)
+\* message classes are varied with an empty argument list, argument lists with a plain message
+LogA(l, ep, r, mc, args) ==
+    /\ "LogA" \in Acts /\ l \in Live(st) /\ (mc = "plain" \/ args = <<>>)
+    /\ (ep \in {"Println", "pkg.Println"} => r = Always)
+    /\ (ep \in PkgEPs => r # Off)              \* there is no package-level function carrying Off
+    /\ st' \in Step(st, [op |-> "LogA", l |-> l, k |-> ep, a |-> r, b |-> 0, mc |-> mc, args |-> args])
 
 Next ==
     \/ \E l \in 1..MaxLoggers, k \in DOMAIN SetterArgs, a \in ArgA, b \in ArgB : Set(l, k, a, b)
@@ -283,6 +311,7 @@ Next ==
     \/ \E v \in ArgA : PkgSetLevel(v)
     \/ \E l \in 1..MaxLoggers : SetDefault(l)
     \/ \E l \in 1..MaxLoggers, r \in LogSevs, fi \in DOMAIN FailSets : LogF(l, r, fi)
+    \/ \E l \in 1..MaxLoggers, ep \in EPs, r \in LogSevs, mc \in MsgClasses, args \in ArgLists : LogA(l, ep, r, mc, args)
 
 Init == st = InitState
 Spec == Init /\ [][Next]_st
@@ -325,6 +354,16 @@ DbgSticky == [][st.dbg => st'.dbg]_st
 GateAgrees ==
     \A l \in Live(st) : \A r \in (Builtin \cup DOMAIN st.treat \cup {13, 15, -8}) :
         Admit(st.cfg[l].level, r, st.dbg, st.treat) = EnabledMech(st.cfg[l].level, r, st.dbg, st.treat)
+
+\* C02 at design level: exactly one whole Write per selected destination iff admitted
+ExactlyOnce ==
+    \A l \in Live(st) : \A ep \in EPs : \A r \in LogSevs : \A mc \in MsgClasses :
+        LET e == [op |-> "LogA", l |-> l, k |-> ep, a |-> r, b |-> 0, mc |-> mc, args |-> <<>>]
+            x == ExpectA(st, e)
+            t == Target(st, e)
+        IN /\ ~Emits(st, t, r) => x = <<>>
+           /\ Emits(st, t, r) => /\ [j \in 1..Len(x) |-> x[j].w] = Dest(st, t, r)
+                                 /\ \A j \in 1..Len(x) : x[j].nl
 
 \* C13 at design level, for every logger, severity and fault assignment of the configuration
 BoundedReaction ==
